@@ -135,7 +135,40 @@ def run(ctx, progs):
             for pos, s in b2.stmts():
                 if s["k"] == "assign" and s["rv"]["k"] == "agg" and s["rv"].get("adt") == EXCL:
                     aggs.append((b2, pos, s))
-        ctx.floor("R11.3.guard_aggregates", len(aggs), 2)
+        # one guard-building closure used more than once (`let exclusive = |g| Guard {{ parent: self, _guard: g }};
+        # lock().map(exclusive).map_err(|e| PoisonError::new(exclusive(e.into_inner())))`): every USE of the closure is a construction site,
+        # with the value that use feeds it
+        shared = []
+        for b2, pos, s in list(aggs):
+            if b2.kind != "Closure":
+                continue
+            gop = dict(zip(s["rv"]["fields"], s["rv"]["ops"])).get("_guard")
+            if gop is None or unref(b2.term(gop, pos))[:2] != ('param', 2):
+                continue
+            root = prog.by_id.get(b2.root, b2)
+            uses = []
+            for fb in prog.family(root):
+                for c in fb.calls():
+                    if c.target == b2.id and len(c.args()) >= 2:
+                        tup = unref(c.args()[1])
+                        if tup[0] == 'agg' and len(tup[3]) == 1:
+                            uses.append(unref(eff.in_parent(fb, tup[3][0])[1]) if fb.kind == "Closure" else unref(tup[3][0]))
+                    elif canon(c.target or "").split("::")[-1] in ("map", "and_then") and len(c.args()) == 2 and \
+                            unref(c.args()[1])[0] == 'agg' and str(unref(c.args()[1])[1]) == b2.id:
+                        uses.append(('ok', unref(c.args()[0])))
+            if len(uses) >= 2:
+                shared.append((b2, pos, s, uses))
+                aggs.remove((b2, pos, s))
+        ctx.floor("R11.3.guard_aggregates", len(aggs) + sum(len(u[3]) for u in shared), 2)
+        for b2, pos, s, uses in shared:
+            root = prog.by_id.get(b2.root, b2)
+            lock = ALT(C("Mutex::lock", F(C("Deref::deref", F(P(1), "inner")), "1")), C("Mutex::try_lock", F(C("Deref::deref", F(P(1), "inner")), "1")))
+            par = unref(eff.in_parent(b2, b2.term(dict(zip(s["rv"]["fields"], s["rv"]["ops"]))["parent"], pos))[1])
+            for k, g in enumerate(uses):
+                g_ok = match(OKP(lock), g, {}) or (match(C("PoisonError::into_inner", ANY), g, {}) and any(match(lock, x, {}) for x in subterms(g)))
+                ok = root.self_adt == ATOM and par[:2] == ('param', 1) and bool(g_ok)
+                ctx.ob("R11.3.guard_from_lock", f"{b2.key}|use {k}", ok, b2.where(s["ln"]),
+                       f"exclusive guard built by a shared closure, use {k}: {{ parent: {tstr(par)}, _guard: {tstr(g)[:80]} }} must come from self and the (try_)lock guard of self.inner.1")
         for b2, pos, s in aggs:
             root = prog.by_id.get(b2.root, b2)
             # `match lock() { Ok(g) => .., Err(e) => .. }` and `lock().map(|g| ..).map_err(|e| ..)` build the same guards: read the
